@@ -211,8 +211,8 @@ PROPS = {
         "level": "proof",
         "lean_modules": ["RaftVerif.Properties.C19"],
         "engines": [E1_CODEC],
-        "explanation": "Byte-level theorems: varints, length-prefixed records, log record (incl. offset and entry type 2), term/vote record, all six RPC messages (AppendEntriesRequest with any number of entries of any type and payload: C19_append_request_roundtrip) and Configuration (two proto maps and an index, entries in any wire order, decoded maps hold exactly the encoded bindings: C19_configuration_roundtrip, C19_configuration_maps) decode to what was encoded for all 64-bit field values and payload lengths. Tie: byte-exact agreement of the model's encoders with proto.Marshal as used by the real converters, of its decoders with proto.Unmarshal, on generated values (0/1/127/128/2^32+-1/2^63/2^64-1, nil/empty/1 B/128 B/KB/non-UTF-8 payloads, non-ASCII ids, 0-7 entries of all three types) and on every truncation of sampled encodings; the property's own round-trip statement evaluated on the real code for every value (also Configuration and snapshot metadata).",
-        "assumptions": ["snapshot metadata (encoding/json) is covered by the implementation-side round-trip oracle only, not by a Lean theorem; Configuration is compared as maps (the order of map entries on the wire is the sender's choice), byte-exact when the maps have at most one entry",
+        "explanation": "Byte-level theorems: varints, length-prefixed records, log record (incl. offset and entry type 2), term/vote record, all six RPC messages (AppendEntriesRequest with any number of entries of any type and payload: C19_append_request_roundtrip) and Configuration (two proto maps and an index, entries in any wire order, decoded maps hold exactly the encoded bindings: C19_configuration_roundtrip, C19_configuration_maps) and the snapshot metadata file (decimal numbers, base64: C19_snapshot_metadata_roundtrip) decode to what was encoded for all 64-bit field values and payload lengths. Tie: byte-exact agreement of the model's encoders with proto.Marshal as used by the real converters, of its decoders with proto.Unmarshal, on generated values (0/1/127/128/2^32+-1/2^63/2^64-1, nil/empty/1 B/128 B/KB/non-UTF-8 payloads, non-ASCII ids, 0-7 entries of all three types) and on every truncation of sampled encodings; the property's own round-trip statement evaluated on the real code for every value (also Configuration and snapshot metadata).",
+        "assumptions": ["the snapshot metadata reader of the model accepts exactly the canonical form the writer (and encoding/json) produces, not arbitrary JSON (the library is the only producer of these files): C19_snapshot_metadata_roundtrip, tied byte-exactly by E1; Configuration is compared as maps (the order of map entries on the wire is the sender's choice), byte-exact when the maps have at most one entry",
                         "gRPC framing and the 4 MiB message limit are outside the model (a transport error is non-delivery, not corruption)"],
     },
 }
